@@ -16,6 +16,8 @@ package util
 // consistent with Less, and to touch nothing else. Len/Less/Swap are under contract below.
 //@ extern sort.Sort(data)
 //@   modifies heap(metricSorter)
+//@   ensures forall r *metricSorter, k int :: 0 <= k && k < len(r.peers) ==> (exists j int :: 0 <= j && j < len(old(r.peers)) && old(r.peers)[j] == r.peers[k])
+//@   ensures forall r *metricSorter, j int :: 0 <= j && j < len(old(r.peers)) ==> (exists k int :: 0 <= k && k < len(r.peers) && r.peers[k] == old(r.peers)[j])
 //@   ensures forall r *metricSorter :: len(r.peers) == len(old(r.peers)) && elems(r.peers) == elems(old(r.peers)) && (distinct(old(r.peers)) ==> distinct(r.peers)) && isnil(r.peers) == isnil(old(r.peers))
 //@   ensures forall r *metricSorter :: r.m == old(r.m) && r.reverse == old(r.reverse)
 //@   ensures forall r *metricSorter, i int, j int :: 0 <= i && i < j && j < len(r.peers) ==> (r.reverse ==> r.m[r.peers[j]] <= r.m[r.peers[i]]) && (!r.reverse ==> r.m[r.peers[i]] <= r.m[r.peers[j]])
